@@ -22,6 +22,7 @@ from liquid2.builtin import parse_primitive
 from liquid2.builtin import parse_string_or_identifier
 from liquid2.builtin import parse_string_or_path
 from liquid2.exceptions import LiquidSyntaxError
+from liquid2.exceptions import LiquidTypeError
 from liquid2.exceptions import TemplateNotFoundError
 
 if TYPE_CHECKING:
@@ -91,10 +92,10 @@ class IncludeNode(Node):
                 key = self.alias or template.name.split(".")[0]
 
                 if isinstance(val, Sequence) and not isinstance(val, str):
-                    context.raise_for_loop_limit(len(val))
+                    context.raise_for_loop_limit(_length(val, token=self.token))
                     # Loops inside the partial are nested in this one.
                     carry = context.loop_iteration_carry
-                    context.loop_iteration_carry = carry * len(val)
+                    context.loop_iteration_carry = carry * _length(val, token=self.token)
                     try:
                         for itm in val:
                             namespace[key] = itm
@@ -142,10 +143,10 @@ class IncludeNode(Node):
                 key = self.alias or template.name.split(".")[0]
 
                 if isinstance(val, Sequence) and not isinstance(val, str):
-                    context.raise_for_loop_limit(len(val))
+                    context.raise_for_loop_limit(_length(val, token=self.token))
                     # Loops inside the partial are nested in this one.
                     carry = context.loop_iteration_carry
-                    context.loop_iteration_carry = carry * len(val)
+                    context.loop_iteration_carry = carry * _length(val, token=self.token)
                     try:
                         for itm in val:
                             namespace[key] = itm
@@ -276,3 +277,11 @@ class IncludeTag(Tag):
         args = parse_keyword_arguments(self.env, tokens)
         tokens.expect_eos()
         return self.node_class(token, name, loop=loop, var=var, alias=alias, args=args)
+
+
+def _length(val: Sequence[object], *, token: TokenT) -> int:
+    try:
+        return len(val)
+    except OverflowError as err:
+        # len() is limited to sys.maxsize
+        raise LiquidTypeError("sequence is too large to loop over", token=token) from err
